@@ -160,7 +160,7 @@ def materialise_children(world, spec, container):
     return items
 
 
-def exec_op(world, op, guard_seconds=5.0):
+def exec_op(world, op, guard_seconds=1.5):
     """Execute one operation on the real objects.  Returns (status, info):
     ('ok', None) or ('exc', exception object).  Watchdog propagates."""
     world.begin_op(op.get("f"))
